@@ -139,7 +139,8 @@ def run_fuzz_case(ctx, kind_, idx):
                 call = lambda: wv.integral_match(**kw)
             before = snap(wv)
             ctx.judged()
-            ctx.monitor("c20:fuzzed_request")
+            ctx.monitor("c20:fuzzed_request"
+        " Round-8 classes: an oversampling factor below 2 on a Weaver holding one sample.")
             try:
                 call()
             except ValueError:
